@@ -30,7 +30,8 @@ fn fits(c: &Cfg) -> bool {
 }
 
 fn run_chain(out: &mut Out, c: &Cfg, salt: u64) {
-    let rows = systematic_code(c.ncw, c.r, salt);
+    // every other configuration uses a code whose parity part is not triangular (the encoder has to pivot)
+    let rows = if salt % 2 == 1 { pivoting_code(c.ncw, c.r, salt) } else { systematic_code(c.ncw, c.r, salt) };
     let k = c.ncw - c.r;
     let sh = shared(k, 40, 50, false);
     let good_frames: u64 = 3;
@@ -134,11 +135,12 @@ fn noise_run(out: &mut Out, c: &Cfg, ebn0_db: f32, salt: u64, rng: &mut Rng, nll
         let llrs: Vec<f64> = if c.psk8 {
             let mut s = Psk8Modulator::new().modulate(&bits);
             for x in s.iter_mut() { *x += Complex::new(rng.gauss() * sigma, rng.gauss() * sigma); }
-            Psk8Demodulator::from_noise_sigma(sigma).demodulate(&s)
+            // the harness's own exact posterior (c14.rs), not the demodulator under test: "correctly scaled LLRs"
+            s.iter().flat_map(|&r| crate::c14::posterior8(r, sigma).0).collect::<Vec<f64>>()
         } else {
             let mut s = BpskModulator::new().modulate(&bits);
             for x in s.iter_mut() { *x += rng.gauss() * sigma; }
-            BpskDemodulator::from_noise_sigma(sigma).demodulate(&s)
+            s.iter().map(|&x| -2.0 * x / (sigma * sigma)).collect::<Vec<f64>>()
         };
         reference.add_frame(&llrs, false);
     }
